@@ -92,6 +92,13 @@ class Repo:
             val = literal_u256(rv)
             out[name] = {"int": val, "term": rv, "body": b}
         self._statics = out
+        # a static defined as a copy of another one (`static ref A: U256 = *B;`) has that one's value
+        for _ in range(3):
+            for name, sv in out.items():
+                if sv["int"] is None:
+                    other = self.static_of(sv["term"])
+                    if other in out and out[other]["int"] is not None:
+                        sv["int"] = out[other]["int"]
         return out
 
     def static_int(self, name):
